@@ -96,6 +96,22 @@ fn fixed_projects() -> Vec<Project> {
         expected_stdout: Some("1\n".into()),
     });
     v.extend(single_file_projects());
+    // one program per counted construct of the sizes family (n = 4): between them they use every feature the
+    // generators know - both derives on one type, dyn, bounds, instances, closures, patterns of every kind
+    for (c, _) in crate::families::sizes::CONSTRUCTS {
+        if let Some((text, want)) = crate::families::sizes::program(c, 4) {
+            v.push(Project { name: format!("construct-{}", c), files: vec![("main.gom".into(), format!("package Main\n\n{}", text))], expected_stdout: Some(want) });
+        }
+    }
+    // both derives on the types of a library, used from Main
+    v.push(Project {
+        name: "both-derives-in-a-library".into(),
+        files: vec![
+            ("main.gom".into(), "package Main\nimport L\n\nfn main() {\n    string_println(L::mk().to_string());\n    string_println(L::mk().to_json());\n    string_println(L::pick().to_string());\n    string_println(L::pick().to_json())\n}\n".into()),
+            ("L/lib.gom".into(), "package L\n\n#[derive(ToString, ToJson)]\nstruct P { a: int32, b: string }\n#[derive(ToJson)]\n#[derive(ToString)]\nenum E { A, B(int32, string) }\nfn mk() -> P { P { a: 1, b: \"x\" } }\nfn pick() -> E { E::B(2, \"y\") }\n".into()),
+        ],
+        expected_stdout: Some("P { a: 1, b: x }\n{\"a\":1,\"b\":\"x\"}\nE::B(2, y)\n{\"tag\":\"B\",\"fields\":[2,\"y\"]}\n".into()),
+    });
     v
 }
 
@@ -267,7 +283,7 @@ impl Family for Determinism {
         300
     }
     fn rule(&self) -> &'static str {
-        "projects = 8 corpus projects + 6 generated + 4 ill-typed variants + 2 projects with several diagnostics / several impls + 74 single-file corpus programs + one project per import DAG on 5 packages in which Main reaches every package (10 possible edges; <= 4 edges, plus the 5-edge ones in one naming, in quick; all in thorough) x 2 directory namings (alphabetical order agreeing with / opposing the topological order) x {well-typed, every leaf ill-typed, every leaf declaring a wrong package name}; for each: hash seeds 0..15 (quick) / 0..127 (thorough) (DAG projects: 0..7 / 0..31) x 2 file creation orders x {whole-program compile, separate build+link through files, and for every non-Main package X the links that must fail: X's core left out, X rebuilt alone with one more exported item so that all its dependents are stale at once, cores offered in build order and reversed} in this process, plus a second process for seeds 0 and 1, plus warm-process histories (a fresh process compiles project X and then project Y, and Y, X, Y, in the same two directories, for all ordered pairs of the first 14 / 30 fixed projects: Y's observables must equal those of a process that compiled only Y), plus 4 spellings of the entry path (bare file name and ./ from inside the project directory, dir/main.gom from its parent, ../dir/main.gom); first an audit that every std hash collection of the compiler crate is imported through the seeded seam and that no clock / random / environment / thread source appeared; observables: Go text, Core/Mono/Lift/ANF dumps, ordered diagnostics, .interface/.core JSON (incl. interface hashes); oracle: byte-identical to the seed-0 baseline. Non-vacuity: the number of distinct package discovery orders produced by the seeds is measured per project. non-trivial = projects for which the seeds produced more than one iteration order of a seeded set of its package names (measured); distinct = distinct (project, seed, order)"
+        "projects = 8 corpus projects + 6 generated + 4 ill-typed variants + 2 projects with several diagnostics / several impls + 74 single-file corpus programs + one program per counted construct of the sizes family (n = 4; both derives on one type among them) + a library with both derives + one project per import DAG on 5 packages in which Main reaches every package (10 possible edges; <= 4 edges, plus the 5-edge ones in one naming, in quick; all in thorough) x 2 directory namings (alphabetical order agreeing with / opposing the topological order) x {well-typed, every leaf ill-typed, every leaf declaring a wrong package name}; for each: hash seeds 0..15 (quick) / 0..127 (thorough) (DAG projects: 0..7 / 0..31) x 2 file creation orders x {whole-program compile, separate build+link through files, and for every non-Main package X the links that must fail: X's core left out, X rebuilt alone with one more exported item so that all its dependents are stale at once, cores offered in build order and reversed} in this process, plus a second process for seeds 0 and 1, plus warm-process histories (a fresh process compiles project X and then project Y, and Y, X, Y, in the same two directories, for all ordered pairs of the first 14 / 30 fixed projects: Y's observables must equal those of a process that compiled only Y), plus 4 spellings of the entry path (bare file name and ./ from inside the project directory, dir/main.gom from its parent, ../dir/main.gom); first an audit that every std hash collection of the compiler crate is imported through the seeded seam and that no clock / random / environment / thread source appeared; observables: Go text, Core/Mono/Lift/ANF dumps, ordered diagnostics, .interface/.core JSON (incl. interface hashes); oracle: byte-identical to the seed-0 baseline. Non-vacuity: the number of distinct package discovery orders produced by the seeds is measured per project. non-trivial = projects for which the seeds produced more than one iteration order of a seeded set of its package names (measured); distinct = distinct (project, seed, order)"
     }
     fn cases(&self, tier: Tier) -> Box<dyn Iterator<Item = Value> + '_> {
         let nf = n_fixed();
